@@ -184,7 +184,7 @@ class locate_table:
 
     """A table is addressed by schema.name first and by alias second; nothing else is returned, and
     a miss is a TableNotFoundError (C05, C06)."""
-    properties = ('C05', 'C06')
+    properties = ('C05', 'C06', 'C01', 'C02')      # C01/C02: every endpoint and group item goes through this lookup
     params = {'self': 'PyDBMLParser', 'schema': 'str', 'name': 'str'}
     pure = True
     ret = 'Table'
